@@ -387,11 +387,14 @@ func (e *Encoder) writeObjectValue(w *bytes.Buffer, v rdf.ObjectValue) error {
 	case rdf.Literal:
 		literal = o
 
-		switch literal.Datatype {
-		case xsdiri.Boolean_Datatype, xsdiri.Decimal_Datatype, xsdiri.Double_Datatype, xsdiri.Integer_Datatype, xsdiri.Long_Datatype:
+		// a bare token only where reading it back gives this datatype and lexical form
+		if datatype, ok := literalShorthandDatatype(literal.LexicalForm); ok && datatype == literal.Datatype {
 			w.Write([]byte(literal.LexicalForm))
 
 			return nil
+		}
+
+		switch literal.Datatype {
 		case rdfiri.LangString_Datatype:
 			w.WriteString(formatLiteralLexicalForm(literal.LexicalForm, false))
 
